@@ -291,10 +291,13 @@ func init() {
 	}
 }
 
-// padHeaders: exactly n bytes (n = 0 or n >= 8) of short header lines (long single lines make the
+// padHeaders: exactly n bytes (n = 0 or n >= 8; 1..7 are rounded up to 8) of short header lines (long single lines make the
 // extracted model slow: Coq's List.rev is quadratic)
 func padHeaders(n int, eol string) string {
 	var b strings.Builder
+	if n > 0 && n < 8 {
+		n = 8
+	}
 	for n > 0 {
 		k := 60
 		if n-k < 8 {
